@@ -357,7 +357,7 @@ func buildFormula(root *Node, targets []*Node) string {
 					conj = append(conj, alt)
 					return conjoin(conj)
 				}
-				if canaryRun && (strings.Contains(n.Name, "#ensures") || strings.Contains(n.Name, "#frame")) {
+				if canaryRun && (strings.Contains(n.Name, "#ensures") || strings.Contains(n.Name, "#frame") || strings.Contains(n.Name, "#wakes")) {
 					// the vacuity canary asks whether a return is reachable at all: a postcondition
 					// that fails must not make it look unreachable
 					break
